@@ -68,7 +68,7 @@ DEEP["C15"] = DEEP["C15"] + ["CacheVerif.Proofs.DeepJanitor"]
 WRAP = {p: ["CacheVerif.Proofs.Wrappers"] for p in ("C03", "C04", "C05", "C11")}
 # the lookup path of MapOf printed from the source (go2deep -table): interpreter(printed Load) = word-filtered search =
 # key search of M3 = M3's load step, for every heap and key
-LOAD = {p: ["CacheVerif.Proofs.Words", "CacheVerif.Proofs.WordsInv", "CacheVerif.Proofs.DeepLoad", "CacheVerif.Proofs.DeepLoadM"] for p in ("C03", "C04", "C10", "C11", "C16")}
+LOAD = {p: ["CacheVerif.Proofs.Words", "CacheVerif.Proofs.WordsInv", "CacheVerif.Proofs.DeepLoad", "CacheVerif.Proofs.DeepLoadM"] for p in ("C03", "C04", "C10", "C11", "C12", "C16")}
 
 # the concurrent cache model M5 is tied to the source text by: solo run of M5 = sequential step (ConcCacheSolo), and
 # steps of M5 = atomic actions the tracing interpreter records on the generated syntax (DeepTrace, both twins)
